@@ -15,6 +15,7 @@ import (
 func init() {
 	vHarnesses["C02_roundtrip"] = H_C02_roundtrip
 	vHarnesses["C02_readonly"] = H_C02_readonly
+	vHarnesses["C02_wholestate"] = H_C02_wholestate
 }
 
 // H_C02_load: the real stream.Open over fakes. Assigned vBuckets {0,1} of 4;
@@ -147,3 +148,26 @@ func H_C02_readonly() {
 }
 
 var _ = errors.New
+
+// H_C02_wholestate: a backend that stores the whole state per save (the file
+// backend, custom backends). A save in which only some vBuckets are dirty must
+// not lose the persisted checkpoint of the others: the next session resumes
+// every assigned vBucket exactly at its last persisted position.
+func H_C02_wholestate() {
+	setMerge(true)
+	ss := vNewSession()
+	ss.fm.wholeState = true
+	ss.deliverDoc(0, 0, true)
+	ss.deliverDoc(1, 0, true)
+	ss.s.checkpoint.Save()
+	assert(len(ss.fm.store) == 2, "both vBuckets stored")
+	adv := choose("advance", 2)
+	ss.deliverDoc(adv, 0, true) // only this vBucket advances
+	ss.s.checkpoint.Save()
+	for vb := 0; vb < vNVB; vb++ {
+		doc, ok := ss.fm.store[uint16(vb)]
+		assert(ok && vDocIs(doc, ss.tracked(vb)), "a partial-dirty save keeps every assigned vBucket's checkpoint in a whole-state backend")
+	}
+	vC01Restart(ss)
+	cover("wholestate")
+}
